@@ -19,7 +19,7 @@ func one(v any) []any { return []any{v} }
 // arities: minimum argc (incl. the name); negative: exact. Also the list of known commands.
 var arities = map[string]int{
 	"PING": 1, "ECHO": -2, "QUIT": 1, "HELLO": 1, "AUTH": 2, "SELECT": -2, "CLIENT": 2, "READONLY": -1, "READWRITE": -1,
-	"ROLE": -1, "INFO": 1, "FAKE.ID": 1, "GET": -2, "SET": 3, "DEL": 2, "INCR": -2, "MGET": 2, "PTTL": -2, "PEXPIRE": -3,
+	"ROLE": -1, "INFO": 1, "CLUSTER": 2, "FAKE.ID": 1, "GET": -2, "SET": 3, "DEL": 2, "INCR": -2, "MGET": 2, "PTTL": -2, "PEXPIRE": -3,
 	"EXISTS": 2, "HSET": 4, "HGET": -3, "HGETALL": -2, "FLUSHALL": 1, "FLUSHDB": 1, "MULTI": -1, "EXEC": -1, "DISCARD": -1,
 	"WATCH": 2, "UNWATCH": -1, "SUBSCRIBE": 2, "UNSUBSCRIBE": 1, "PSUBSCRIBE": 2, "PUNSUBSCRIBE": 1, "SSUBSCRIBE": 2,
 	"SUNSUBSCRIBE": 1, "PUBLISH": -3, "SPUBLISH": -3,
@@ -125,6 +125,11 @@ func (s *Server) run(c *conn, name string, argv []string) []any {
 			txt += "availability_zone:" + s.opt.AZ + "\r\n"
 		}
 		return one(txt)
+	case "CLUSTER":
+		if s.opt.Cluster && strings.EqualFold(a[0], "SLOTS") {
+			return one([]any{[]any{0, 16383, []any{"127.0.0.1", 6379, "fakenode0000000000000000000000000000000000"}}})
+		}
+		return one(Err("ERR This instance has cluster support disabled"))
 	case "CLIENT":
 		return one(s.client(c, a))
 	case "MULTI":
